@@ -825,7 +825,9 @@ class TreeSim(taps.Sim):
                 p, sspec = self.strats[0]
                 node = root
             amt = o["frac"] * (self.cfg["capital"] or 1e5)
-            if o.get("rebook") and not self.in_batch:
+            if o.get("rebook"):
+                if self.in_batch:
+                    self.flush("pre-rebook flush")  # (the op values the book itself: both flush schedules start it from a delivered state)
                 self.fire("contribution_rebooked_as_income")
                 amt = abs(amt)
                 node.adjust(amt, update=True, flow=True)
